@@ -1,4 +1,5 @@
 import GqlVerif.Props.C19
+import GqlVerif.Proofs.C19Composed
 open GqlVerif.C19
 #print axioms cli_options_map
 #print axioms cli_options_refused
@@ -12,3 +13,26 @@ open GqlVerif.C19
 #print axioms gen_error_no_file
 #print axioms gen_error_reported
 #print axioms old_with_extension_quirk
+-- the library call instantiated with the Codegen model through the cache model (Proofs/C19Composed.lean)
+#print axioms GqlVerif.C19C.libCall_eq_spec
+#print axioms GqlVerif.C19C.libCall_of_loaded
+#print axioms GqlVerif.C19C.genEnv_lib_fixed
+#print axioms GqlVerif.C19C.cliOptions_eq
+#print axioms GqlVerif.C19C.cliOptions_ok
+#print axioms GqlVerif.C19C.output_is_header_then_modules
+#print axioms GqlVerif.C19C.output_is_header_then_lib_fixed
+#print axioms GqlVerif.C19C.gen_error_reported
+#print axioms GqlVerif.C19C.gen_error_reported_fixed
+#print axioms GqlVerif.C19C.invalid_document_reported
+#print axioms GqlVerif.C19C.missing_query_file_panics
+#print axioms GqlVerif.C19C.main_error_no_file
+#print axioms GqlVerif.C19C.main_success_inv
+#print axioms GqlVerif.C19C.generate_cli_modules
+#print axioms GqlVerif.C19C.modules_per_operation
+#print axioms GqlVerif.C19C.cli_modules_per_operation
+#print axioms GqlVerif.C19C.selected_unknown_generates_all
+#print axioms GqlVerif.C19C.selected_known_generates_one
+#print axioms GqlVerif.C19C.parseDeprecation_table
+#print axioms GqlVerif.C19C.parseVisibility_table
+#print axioms GqlVerif.C19C.spells_pub
+#print axioms GqlVerif.C19C.cli_flag_tables
